@@ -525,6 +525,8 @@ func runC07(c *Ctx) {
 	r7 := c.Rule("R7", "a first root's handle is registered only after its blob was written: the root id is published in StoreInfo.RootNodeID, so a registered handle without a blob is reachable data that does not load, and (the partial step not being undone, R2) it blocks every later creator of that root for good, whereas an orphan blob is overwritten by the retry", 1)
 	rootBlobBeforeHandleRule(c, r7)
 	failedFlipKeepsKeysRule(c, r5)
+	r10 := c.Rule("R10", "a rollback never deletes a committed value: an actively persisted store writes updated values before the commit point under a fresh blob id, whether or not the value was read first (shared with C03.R8)", 2)
+	activePersistRekeyRule(c, r10)
 	r9 := c.Rule("R9", "the step marker is the step whose log write was attempted: transactionLog.log assigns committedState = f on every path, also when the backend rejects the record - rollback's strict `>` guards read a failed log of step S as `S-1 completed, S not started`", 2)
 	stepMarkerRule(c, r9)
 	r8 := c.Rule("R8", "what an undo function looks up in the registry is recorded there before the data it leads to is written (derived from the undo functions; shared with C11.R5)", 3)
